@@ -18,11 +18,12 @@ import subprocess
 from . import common as C
 
 THEOREMS = [
-    "clean_idempotent", "clean_rooted_no_dot_elements", "clean_id_of_good", "quote_injective",
-    "rawKey_injective", "key_injective_counterexample", "key_injective_tags_counterexample", "key_injective_partial",
-    "cachedPath_injective_partial",
+    "quote_injective", "key_injective", "cachedPath_injective",
     "test_pkg_never_cached", "stale_is_miss", "damage_is_miss", "missing_is_miss", "load_sound", "store_then_load",
-    "crash_atomic", "temp_ne_final", "failed_store_keeps_final", "load_provenance", "load_provenance_benign",
+    "crash_atomic", "temp_ne_final", "failed_store_keeps_final", "load_provenance",
+    # repaired defects: the old path.Join key scheme and path.Clean
+    "clean_idempotent", "clean_rooted_no_dot_elements", "clean_id_of_good",
+    "old_key_injective_counterexample", "old_key_injective_tags_counterexample", "old_key_injective_partial",
 ]
 
 SIG_COLLISION = "C20 key-collision path.Join-cleans-dot-or-empty-segments-across-fields load-hits-other-configuration"
@@ -40,7 +41,11 @@ SIG_MAINDOT = "C20 transparency main-package-import-path-dot shared-by-different
 # bytes the quoting model covers: ASCII and bytes that never start a valid UTF-8 sequence
 ODD = [0x00, 0x07, 0x08, 0x09, 0x0A, 0x0B, 0x0C, 0x0D, 0x1B, 0x1F, 0x7F, 0x80, 0xBF, 0xC0, 0xC1, 0xF5, 0xFF]
 PIECES = [b"a", b"b", b"go", b"/", b"/", b".", b"..", b"/../", b"/./", b"//", b"\"", b"\\", b" ", b", ", b"{", b"}", b":",
-          b"\",\"", b"usr", b"local", b"x_test", b"_test", b"}/", b"[]string"]
+          b"\",\"", b"usr", b"local", b"x_test", b"_test", b"}/", b"[]string",
+          "\u00e9".encode(), "\u20ac".encode(), "\u0085".encode(), "\u00a0".encode(), "\u200b".encode(), "\ufffd".encode(),
+          "\U0001f600".encode(), "\U000e0001".encode(), "\U0010ffff".encode(), "\u07ff".encode(), "\u0800".encode(), "\uffff".encode(),
+          "\U00010000".encode(), b"\xe2\x82", b"\xc3", b"\xf0\x9f\x98", b"\xc0\x80", b"\xe0\x80\x80", b"\xed\xa0\x80",
+          b"\xf4\x90\x80\x80", b"\xf8\x88\x80\x80\x80"]
 
 
 def hx(b):
@@ -133,6 +138,23 @@ def mutate_tags(rng, t, adversarial):
     return [b"zz"]
 
 
+def nonprint_op(ops):
+    """`cache nonprint <runes>`: the runes >= 0x80 occurring (as well-formed UTF-8) in the hex arguments of `ops` for which
+    Go's strconv.IsPrint is false. unicode.IsPrint is a parameter of the Lean model (the theorems hold for any)."""
+    runes = set()
+    for o in ops:
+        for tok in o.split()[2:]:
+            for h in tok.split(","):
+                if len(h) >= 4 and len(h) % 2 == 0 and all(c in "0123456789abcdef" for c in h):
+                    runes.update(ord(ch) for ch in bytes.fromhex(h).decode("utf-8", "ignore") if ord(ch) >= 0x80)
+    if not runes:
+        return "cache nonprint -"
+    p = C.run_gvh(["isprint", ",".join(str(r) for r in sorted(runes))], extra_env={"XDG_CACHE_HOME": "/tmp/gv-none"}, name="gvh_c20")
+    if p.returncode != 0:
+        raise RuntimeError("gvh_c20 isprint failed: " + p.stderr[-500:])
+    return "cache nonprint " + (p.stdout.strip() or "-")
+
+
 def is_test_pkg(tested, p):
     return len(p) > 0 and (p == tested or p == tested + b"_test")
 
@@ -179,7 +201,7 @@ def gen_scenarios(tier, rng):
         s.load(c1, b"", p1, T0)
         s.load(c2, b"", p2, T0)
         scs.append(s)
-    n = 1200 if tier == "thorough" else 160
+    n = 1200 if tier == "thorough" else 120
     for i in range(n):
         adversarial = rng.random() < 0.6
         s = Scenario()
@@ -261,6 +283,10 @@ STORED_RE = re.compile(r"^stored ([0-9a-f]{2})/\1[0-9a-f]{62}$")
 
 def run_key_ties(chk, tier):
     scs = gen_scenarios(tier, chk.rng)
+    first = Scenario()
+    first.ops.append(nonprint_op([o for s in scs for o in s.ops]))
+    first.meta.append(("other",))
+    scs.insert(0, first)
     ops, owner = [], []
     for si, s in enumerate(scs):
         for j, o in enumerate(s.ops):
@@ -336,14 +362,19 @@ def run_string_ties(chk, tier):
     for n in range(0, maxlen + 1):
         for s in itertools.product(b"/.a", repeat=n):
             ops.append("cache clean " + hx(bytes(s)))
-    for _ in range(20000 if tier == "thorough" else 3000):
+    for _ in range(20000 if tier == "thorough" else 2000):
         ops.append("cache clean " + hx(rand_str(rng, True, 8)))
     for b in range(256):
-        if not (0xC2 <= b <= 0xF4):
-            ops.append("cache quote " + hx(bytes([b])))
-            ops.append("cache quote " + hx(bytes([0x61, b, 0x22])))
+        ops.append("cache quote " + hx(bytes([b])))
+        ops.append("cache quote " + hx(bytes([0x61, b, 0x22])))
+        ops.append("cache quote " + hx(bytes([b, 0x80, 0xBF, 0x80])))
+    bounds = [0x7F, 0x80, 0x9F, 0xA0, 0xAD, 0xFF, 0x7FF, 0x800, 0xD7FF, 0xE000, 0xFFFD, 0xFFFE, 0xFFFF, 0x10000, 0x1F600, 0xE0001, 0x10FFFF]
+    for r in bounds + [rng.randrange(0x80, 0x110000) for _ in range(3000 if tier == "thorough" else 400)]:
+        if not (0xD800 <= r <= 0xDFFF):
+            ops.append("cache quote " + hx(chr(r).encode() + b"/x"))
     for _ in range(10000 if tier == "thorough" else 2000):
         ops.append("cache quote " + hx(rand_str(rng, True, 8)))
+    ops.insert(0, nonprint_op(ops))
     xdg = C.scratch("gv-c20-s")
     try:
         impl = C.run_gvh_lines(["ops"], ops, extra_env={"XDG_CACHE_HOME": xdg}, name="gvh_c20")
@@ -352,7 +383,7 @@ def run_string_ties(chk, tier):
     model = C.run_driver("C20", ops)
     chk.compare("path.Clean+strconv.Quote", ops, impl, model, kind=lambda o, c: o.split()[1],
                 signature=lambda o, a, c: "C20 model-of-%s differs" % o.split()[1])
-    chk.extra["exhaustive_subspace"] = "path.Clean on all strings of length <= %d over {'/','.','a'}; %%#v quoting of every single byte outside 0xC2..0xF4" % maxlen
+    chk.extra["exhaustive_subspace"] = "path.Clean on all strings of length <= %d over {'/','.','a'}; %%#v quoting of every single byte (alone, in context, as lead byte of 3 continuation bytes)" % maxlen
 
 
 # ---------------------------------------------------------------------------------------------------------
@@ -381,10 +412,10 @@ def run_faults(chk, tier):
                 ("sources", "01,08,80,ff", 3000)]
         strides = {}
     else:
-        jobs = [("hex:" + bytes(chk.rng.randrange(256) for _ in range(200)).hex(), "01,10,80,ff", 400),
-                ("txt:%d:2000" % seed, "01,10,80,ff", 300),
-                ("sources", "10", 200)]
-        strides = {"sources": ["5", "3"]}     # quick tier samples the interior offsets of the large Sources entry
+        jobs = [("hex:" + bytes(chk.rng.randrange(256) for _ in range(200)).hex(), "01,10,80,ff", 300),
+                ("txt:%d:1500" % seed, "04,ff", 200),
+                ("sources", "10", 150)]
+        strides = {"sources": ["9", "7"]}     # quick tier samples the interior offsets of the large Sources entry
     summary = {}
     for (spec, masks, nrand) in jobs:
         xdg = C.scratch("gv-c20-f")
@@ -441,7 +472,7 @@ def run_crash(chk, tier):
                 n = 0
                 while n < maxn:
                     # quick tier: every N up to 8, then a seeded stride; thorough: every N
-                    n += 1 if (tier == "thorough" or n < 8) else chk.rng.randrange(2, 6)
+                    n += 1 if (tier == "thorough" or n < 4) else chk.rng.randrange(4, 10)
                     xdg = C.scratch("gv-c20-k")
                     try:
                         if prev:
@@ -554,7 +585,7 @@ def run_transparency(chk, tier):
             warm = build("cache")
             # damage every stored entry in a way the real envelope detects (truncate to half), then build again
             nfiles = 0
-            if name == "floating-linkname":
+            if name == "floating-linkname" and tier != "thorough":
                 damaged, rewarm = {"hits": "0", "sha256": ref.get("sha256")}, warm
             else:
                 for root, _, files in os.walk(xdg):
@@ -570,14 +601,14 @@ def run_transparency(chk, tier):
         res[name] = {"ref": ref.get("sha256", ref.get("error"))[:16], "cold_hits": cold.get("hits"), "warm_hits": warm.get("hits"),
                      "warm_loads": warm.get("loads"), "entries": nfiles, "damaged_hits": damaged.get("hits"), "rewarm_hits": rewarm.get("hits")}
         for stage, r in (("cold", cold), ("warm", warm), ("damaged", damaged), ("rewarm", rewarm)):
-            if name == "floating-linkname" and stage in ("damaged", "rewarm"):
+            if name == "floating-linkname" and stage in ("damaged", "rewarm") and tier != "thorough":
                 continue
             op = "transparency program=%s stage=%s" % (name, stage)
             chk.add_case("transparency", op, True, "transparency:%s:%s" % (name, stage))
             a = r.get("sha256") or "error:" + r.get("error", "?")[:200]
             b = ref.get("sha256") or "error:" + ref.get("error", "?")[:200]
             if a != b:
-                sig = SIG_LINKNAME if name == "floating-linkname" and stage == "warm" else \
+                sig = SIG_LINKNAME if name == "floating-linkname" and stage in ("warm", "rewarm") else \
                     "C20 transparency program=%s stage=%s" % (name, stage)
                 chk.add_mismatch("transparency", op + "\n" + src, a, b, signature=sig)
         if "error" in ref and name != "floating-linkname":
@@ -658,17 +689,23 @@ def run(tier, seed):
                        "nil and empty BuildTags are the same configuration for the spec (the code keys them apart: harmless miss)"]
     C.build_gvh("gvh_c20")
     chk.proof = C.check_proofs("C20", THEOREMS, tier)
+    import resource
     import time
     phases = {}
+    cpu = {}
     only = os.environ.get("VERIF_C20_PHASES")     # development aid: comma-separated subset of phase names
     for f in (run_string_ties, run_key_ties, run_faults, run_crash, run_transparency):
         if only and f.__name__[4:] not in only.split(","):
             continue
         t0 = time.time()
+        r0 = resource.getrusage(resource.RUSAGE_CHILDREN)
         f(chk, tier)
+        r1 = resource.getrusage(resource.RUSAGE_CHILDREN)
         phases[f.__name__] = round(time.time() - t0, 1)
+        cpu[f.__name__] = round(r1.ru_utime + r1.ru_stime - r0.ru_utime - r0.ru_stime, 1)
     chk.extra["phase_wall_s"] = phases
-    C.log("[C20] phases: %s" % phases)
+    chk.extra["phase_child_cpu_s"] = cpu
+    C.log("[C20] phases wall: %s  child cpu: %s" % (phases, cpu))
     return chk.finish()
 
 
